@@ -316,7 +316,14 @@ where
                 return ControlFlow::Break(());
             }
         };
-        self.init_channel(&policy);
+        // Only a schedule that can be accepted in the current state may create the MPC channel
+        // endpoints. A duplicate schedule is rejected below and must leave the endpoints of the
+        // computation that is already under way untouched.
+        if matches!(self.state_kind, PolicyStateKind::Init)
+            || (!is_leader && matches!(self.state_kind, PolicyStateKind::ValidateRequested { .. }))
+        {
+            self.init_channel(&policy);
+        }
 
         if is_leader {
             if !matches!(self.state_kind, PolicyStateKind::Init) {
